@@ -1,5 +1,6 @@
 import Driver.Util
 import GinjaxVerif.Model.C17
+import GinjaxVerif.Model.C17Loss
 open Lean Driver GinjaxVerif.C15 GinjaxVerif.C17
 
 /-!
@@ -21,8 +22,72 @@ def jMI {β} (g : β → Json) (m : MI String β) : Json :=
 
 def asMI (j : Json) : R (MI String (List Int)) := asList (asPair (asList asInt)) j
 
+/-- data set of the loss ops: type `t` of a multi-image holds the sample ids `i + 100 * t` -/
+def idMI (L : Nat) (keys : List String) : MI String (List Int) :=
+  keys.zipIdx.map (fun kt => (kt.1, (List.range L).map (fun (i : Nat) => Int.ofNat i + 100 * Int.ofNat kt.2)))
+
+/-- the identity model on sample ids: one output type per input type, same keys, same order -/
+def idNet (keys : List String) : Net String Int String Int :=
+  keys.map (fun k => (k, fun s => (lookup k s).getD (-1)))
+
+/-- per-sample loss read off a table: prediction made from input sample `i` (its first type holds
+`i`) against target sample `j` -/
+def tableLoss (tab : List (List Rat)) (pred y : MI String Int) : Rat :=
+  match pred, y with
+  | (_, i) :: _, (_, j) :: _ => ((tab[i.toNat]?).bind (·[j.toNat]?)).getD 0
+  | _, _ => 0
+
+structure LossArgs where
+  L : Nat
+  B : Nat
+  nd : Nat
+  perm : Option (List Nat)
+  xkeys : List String
+  ykeys : List String
+  tab : List (List Rat)
+
+def lossArgs (j : Json) : R LossArgs := do
+  let L ← natF j "L"
+  let B ← natF j "B"
+  let nd ← natF j "nd"
+  let perm ← match optField j "perm" with
+    | none => pure none
+    | some v => do
+      let l ← asList asNat v
+      pure (some l)
+  let xkeys ← listF asStr j "xkeys"
+  let ykeys ← listF asStr j "ykeys"
+  let tab ← listF (asList asRat) j "loss"
+  if xkeys.isEmpty || ykeys.isEmpty then throw "a multi-image without types" else
+  if tab.length ≠ L || tab.any (fun r => r.length != L) then throw "loss table is not L x L" else
+  match perm with
+  | some π => if π.any (fun v => decide (L ≤ v)) then throw "index out of range in perm" else pure ()
+  | none => pure ()
+  pure { L, B, nd, perm, xkeys, ykeys, tab }
+
 def handle (op : String) (j : Json) : R Json := do
   match op with
+  | "c17.map_loss" =>
+    let a ← lossArgs j
+    let x := idMI a.L a.xkeys
+    let y := idMI a.L a.ykeys
+    match mapLossInBatches a.perm a.B a.nd (idNet a.xkeys) (tableLoss a.tab) x y with
+    | none => throw "rejected"
+    | some v =>
+      -- the sample ids the modelled get_batches put into the batches of x (first type), batch order
+      let used := match getBatches a.perm a.B a.nd [x, y] with
+        | some (xbs :: _) => xbs.flatMap (fun b => match b with
+            | (_, blk) :: _ => blk.flatten
+            | [] => [])
+        | _ => []
+      pure (Json.mkObj [("loss", jRat v), ("used", jList jInt used)])
+  | "c17.map_plus" =>
+    let a ← lossArgs j
+    let x := idMI a.L a.xkeys
+    let y := idMI a.L a.ykeys
+    match mapPlusLossInBatches a.perm a.B a.nd (idNet a.xkeys) (tableLoss a.tab) x y with
+    | none => throw "rejected"
+    | some (v, out) => pure (Json.mkObj [("loss", jRat v), ("out", jMI (jList jInt) out)])
   | "c17.batches" =>
     let B ← natF j "B"
     let nd ← natF j "nd"
